@@ -134,7 +134,31 @@ impl crux_core::App for App {
                 while model.handles.len() <= i {
                     model.handles.push(None);
                 }
+                if clear && i % 2 == 1 {
+                    // odd timers: the timer's future is made from the builder first (`into_future`), the handle is cleared next
+                    // and the future is polled last, all inside one task — still a timer cleared before it was ever requested
+                    macro_rules! in_task {
+                        ($pair:expr) => {{
+                            let (b, handle) = $pair;
+                            model.raws[i] = Some(raw_of_debug(&format!("{handle:?}")));
+                            Command::new(move |ctx| async move {
+                                let fut = b.into_future(ctx.clone());
+                                handle.clear();
+                                let o = fut.await;
+                                ctx.send_event(Event::Outcome(i, o));
+                            })
+                        }};
+                    }
+                    return if at {
+                        in_task!(TimeCmd::<Effect, Event>::notify_at(when()))
+                    } else {
+                        in_task!(TimeCmd::<Effect, Event>::notify_after(Duration::from_secs(2)))
+                    };
+                }
                 let (cmd, handle) = make_timer(i, at);
+                // every fourth timer is wrapped in `Command::all` of itself BEFORE its handle may be cleared: combining
+                // commands does not run them (all of one command is that command)
+                let cmd = if i % 4 == 2 { Command::all([cmd]) } else { cmd };
                 model.raws[i] = Some(raw_of_debug(&format!("{handle:?}")));
                 if clear {
                     handle.clear();
